@@ -69,6 +69,19 @@ EXTRACT ("C07Frustum", fr_zd_wrap, "C07.Frustum.ZToDepth_12_0_10_persp", { FRU (
 EXTRACT ("C07Frustum", fr_zdE_wrap, "C07.Frustum.ZToDepthExc_12_0_10_persp", { FRU (false); c.outS (fr.ZToDepthExc (12, 0, 10)); })
 EXTRACT ("C07Frustum", fr_zd_zero, "C07.Frustum.ZToDepth_3_7_7_persp", { FRU (false); c.outS (fr.ZToDepth (3, 7, 7)); })
 EXTRACT ("C07Frustum", fr_zdE_zero, "C07.Frustum.ZToDepthExc_3_7_7_persp", { FRU (false); c.outS (fr.ZToDepthExc (3, 7, 7)); })
+// more literal triples (audit r2 S3): zval = zmax + 1 (the last value that does NOT wrap), negative range, wrap with a negative zmin, the
+// unit range, and a range beyond 32 bits (the z range used to be narrowed to int); the general integer plumbing of the unchecked
+// member (wrap, zdiff, cast) is proved in Props/C16Z.lean (zToDepth_*_inrange / _wrap), here the CHECKED copy is tied to it triple by triple
+#define ZTD_PAIR(id, L, ZV, ZMIN, ZMAX)                                                                    \
+    EXTRACT ("C07Frustum", fr_zd_##id, "C07.Frustum.ZToDepth_" L "_persp", { FRU (false); c.outS (fr.ZToDepth (ZV, ZMIN, ZMAX)); })       \
+    EXTRACT ("C07Frustum", fr_zdE_##id, "C07.Frustum.ZToDepthExc_" L "_persp", { FRU (false); c.outS (fr.ZToDepthExc (ZV, ZMIN, ZMAX)); }) \
+    EXTRACT ("C07Frustum", fr_zdo_##id, "C07.Frustum.ZToDepth_" L "_ortho", { FRU (true); c.outS (fr.ZToDepth (ZV, ZMIN, ZMAX)); })        \
+    EXTRACT ("C07Frustum", fr_zdoE_##id, "C07.Frustum.ZToDepthExc_" L "_ortho", { FRU (true); c.outS (fr.ZToDepthExc (ZV, ZMIN, ZMAX)); })
+ZTD_PAIR (t11, "11_0_10", 11, 0, 10)
+ZTD_PAIR (tm3, "m3_m10_10", -3, -10, 10)
+ZTD_PAIR (t25, "25_m5_15", 25, -5, 15)
+ZTD_PAIR (t01, "0_0_1", 0, 0, 1)
+ZTD_PAIR (tw, "w33", 8589934591L, 1L, 8589934591L)
 // members that do not read the flag
 EXTRACT ("C07Frustum", fr_l2s, "C07.Frustum.localToScreen", { FRU (false); IN (Vec2, p); c.out (fr.localToScreen (p)); })
 EXTRACT ("C07Frustum", fr_l2sE, "C07.Frustum.localToScreenExc", { FRU (false); IN (Vec2, p); c.out (fr.localToScreenExc (p)); })
